@@ -3,6 +3,7 @@ package encoding
 import (
 	"bytes"
 	"encoding/binary"
+	"encoding/hex"
 	"fmt"
 	"hash"
 	"io"
@@ -67,15 +68,20 @@ func (compValFmtInvalid) FromMatching(m any) ([]byte, error) {
 }
 
 func (compValFmtText) ToString(val []byte) string {
-	vText := ""
+	// built in one buffer: appending to a string per byte is quadratic in the value length
+	const hexDigits = "0123456789ABCDEF"
+	var sb strings.Builder
+	sb.Grow(len(val))
 	for _, b := range val {
 		if isLegalCompText(b) {
-			vText = vText + string(b)
+			sb.WriteString(string(b))
 		} else {
-			vText = vText + fmt.Sprintf("%%%02X", b)
+			sb.WriteByte('%')
+			sb.WriteByte(hexDigits[b>>4])
+			sb.WriteByte(hexDigits[b&0x0f])
 		}
 	}
-	return vText
+	return sb.String()
 }
 
 func (compValFmtText) FromString(valStr string) ([]byte, error) {
@@ -165,11 +171,7 @@ func (compValFmtDec) FromMatching(m any) ([]byte, error) {
 }
 
 func (compValFmtHex) ToString(val []byte) string {
-	vText := ""
-	for _, b := range val {
-		vText = vText + fmt.Sprintf("%02x", b)
-	}
-	return vText
+	return hex.EncodeToString(val)
 }
 
 func (compValFmtHex) FromString(s string) ([]byte, error) {
